@@ -162,10 +162,10 @@ pub fn run(ctx: Ctx) -> ! {
     let mut runs = vec![];
     let base = |peers, max_peers| Cfg { peers, max_peers, max_warm: 2, max_hot: 1, max_err: 1, leios: false };
     if ctx.thorough {
-        runs.push(explore(&ctx, &base(2, 2), 15, true, 4_000_000, "2 peers, max_peers 2, gated, depth 15"));
-        runs.push(explore(&ctx, &base(3, 3), 11, true, 4_000_000, "3 peers, max_peers 3, gated, depth 11"));
-        runs.push(explore(&ctx, &base(3, 2), 11, true, 4_000_000, "3 peers, max_peers 2, gated, depth 11"));
-        runs.push(explore(&ctx, &base(2, 2), 7, false, 4_000_000, "2 peers, ungated (adversarial interface), depth 7"));
+        runs.push(explore(&ctx, &base(2, 2), 20, true, 6_000_000, "2 peers, max_peers 2, gated, depth 20"));
+        runs.push(explore(&ctx, &base(3, 3), 14, true, 6_000_000, "3 peers, max_peers 3, gated, depth 14"));
+        runs.push(explore(&ctx, &base(3, 2), 14, true, 6_000_000, "3 peers, max_peers 2, gated, depth 14"));
+        runs.push(explore(&ctx, &base(2, 2), 9, false, 6_000_000, "2 peers, ungated (adversarial interface), depth 9"));
     } else {
         runs.push(explore(&ctx, &base(2, 2), 12, true, 600_000, "2 peers, max_peers 2, gated, depth 12"));
         runs.push(explore(&ctx, &base(3, 3), 9, true, 600_000, "3 peers, max_peers 3, gated, depth 9"));
